@@ -73,7 +73,8 @@ func ScopesFromString(s string) (WitnessScope, error) {
 			isGlobal = true
 		}
 	}
-	return result, nil
+	// 'Global' can be the last one in the list as well.
+	return ScopesFromByte(byte(result))
 }
 
 func appendScopeString(str string, scopes WitnessScope, scope WitnessScope) string {
